@@ -7,6 +7,8 @@ INVARIANT R_Name
 INVARIANT R_FailIsError
 INVARIANT R_OtherNotWrapped
 INVARIANT R_Outcome
+INVARIANT R_PoolClass
 INVARIANT ObsDrift
 POSTCONDITION Consumed
 CHECK_DEADLOCK FALSE
+CONSTANT KeyMergesWsIntoHttp = FALSE
